@@ -68,6 +68,8 @@ def run_variant(v: Dict) -> Dict:
             if want == 'violation':
                 hit = code == 1 and (not v.get('mention') or any(v['mention'] in m for m in msgs))
                 ok = ok and hit
+            elif want == 'nonzero':
+                ok = ok and code != 0
             else:
                 ok = ok and code == 0
             details.append(f"{p}: exit {code} " + ' | '.join(msgs[:3]))
